@@ -57,11 +57,15 @@ func line(box orb.Bound, in orb.LineString, open bool) orb.MultiLineString {
 				break
 			} else if codeA != 0 {
 				// A is outside, B is inside, clip edge
-				a = intersect(box, codeA, a, b)
+				if bitCode(box, a) != 0 {
+					a = intersect(box, codeA, a, b)
+				} // else open bound, a is on the boundary and is its own intersection
 				codeA = bitCode(box, a)
 			} else {
 				// B is outside, A is inside, clip edge
-				b = intersect(box, codeB, a, b)
+				if bitCode(box, b) != 0 {
+					b = intersect(box, codeB, a, b)
+				} // else open bound, b is on the boundary and is its own intersection
 				codeB = bitCode(box, b)
 			}
 		}
